@@ -243,7 +243,10 @@ class Exec:
     # -- link side / vertex side mutators ----------------------------------------
     def op_set_end(self, op):
         e, x = self.g(op["e"]), self.g(op["x"])
-        if op["which"] == 1:
+        if op.get("via") == "item":
+            # the keyed spelling every BaseObject offers
+            e["v1" if op["which"] == 1 else "v2"] = x
+        elif op["which"] == 1:
             e.v1 = x
         else:
             e.v2 = x
@@ -310,8 +313,15 @@ class Exec:
             if key in clusters:
                 # the value is a universe object that is iterable over its members
                 adj[self.g(key)] = self.g(clusters[key])
+            elif op.get("vals_as") == "ibft" and vals:
+                # a lazy adjacency "list": everything reachable from the first
+                # listed vertex, found by a traversal that runs WHILE the
+                # builder consumes it (and creates links)
+                adj[self.g(key)] = breadthfirst.ibft(
+                    None, self.g(vals[0]), unknown_handling=helpers.LNK_UNKNOWN_NONNEIGHBOR
+                )
             else:
-                adj[self.g(key)] = self.as_kind(self.gs(vals), op.get("vals_as"))
+                adj[self.g(key)] = self.as_kind(self.gs(vals), op.get("vals_as") if op.get("vals_as") != "ibft" else None)
         kw = {}
         if op.get("cls") is not None:
             kw["linktype"] = C.EDGE_CLASSES[op["cls"]]
@@ -422,6 +432,10 @@ CELLS = {
     "[]": (),
     "[0]": (0,),
     "-1": -1,
+    # truthy floats that are no ordinary numbers
+    "nan": float("nan"),
+    "inf": float("inf"),
+    "-inf": float("-inf"),
 }
 
 
